@@ -565,7 +565,11 @@ pub(crate) async fn get_one_term(
             prefix: PREFIX_DEFAULT.to_string(),
             hash: term.hash.into(),
         };
-        cache.put(&key, &fetch_term.range, &chunk_byte_indices, &data)?;
+        // The data is already in hand: a failure to store it in the local cache (e.g. when the put
+        // races with an eviction of the same key directory) must not fail the download.
+        if let Err(e) = cache.put(&key, &fetch_term.range, &chunk_byte_indices, &data) {
+            info!("Writing to local cache failed, continuing. Error: {e}");
+        }
     }
 
     // if the requested range is smaller than the fetched range, trim it down to the right data
